@@ -192,6 +192,24 @@ func bareable(raw string) bool {
 	return true
 }
 
+// pgBareable: PostgreSQL identifiers that mean the same without quotes: lower-case letters,
+// digits and underscore, no leading digit (unquoted names are folded to lower case, so these are
+// unchanged; a keyword among them cannot be printed bare without failing the round trip). The
+// printer keeps the quotes of PostgreSQL identifiers wherever the AST records them; a collation
+// name is a plain string in the AST and is printed with quotes only when it needs them.
+func pgBareable(raw string) bool {
+	if raw == "" || (raw[0] >= '0' && raw[0] <= '9') {
+		return false
+	}
+	for i := 0; i < len(raw); i++ {
+		c := raw[i]
+		if !(c == '_' || (c >= '0' && c <= '9') || (c >= 'a' && c <= 'z')) {
+			return false
+		}
+	}
+	return true
+}
+
 // identPairTemplates: {1} and {2} are two different identifiers of the menu.
 func identPairTemplates() []string {
 	return []string{
@@ -251,11 +269,7 @@ func identQuoteSets() (idQuotes, strQuotes string) {
 // identBytesCheck: every quoted identifier of the received text (read by identLex) occurs in
 // the sent text as often as in the received one. In the MySQL dialects an identifier that
 // needs no quotes may be printed without them.
-func identBytesCheck(col *sqlgen.Collector, c caseT, t sqlparser.Statement) string {
-	sent, pp := sqlgen.Print(t)
-	if pp != "" {
-		return oOK
-	}
+func identBytesCheck(col *sqlgen.Collector, c caseT, sent string) string {
 	col.Eval(1)
 	// (the printer may choose the dialect's own identifier quote: ANSI mode prints a backtick
 	// identifier in double quotes; identLex reads both kinds)
@@ -263,7 +277,7 @@ func identBytesCheck(col *sqlgen.Collector, c caseT, t sqlparser.Statement) stri
 	recv, got := identLex(c.SQL, idq, strq), identLex(sent, idq, strq)
 	seen := map[string]bool{}
 	for _, raw := range recv {
-		if seen[raw] || (sqlgen.IsMySQL() && bareable(raw)) {
+		if seen[raw] || (sqlgen.IsMySQL() && bareable(raw)) || (!sqlgen.IsMySQL() && pgBareable(raw) && count(got, raw) < count(recv, raw)) {
 			continue
 		}
 		seen[raw] = true
@@ -281,6 +295,65 @@ func identBytesCheck(col *sqlgen.Collector, c caseT, t sqlparser.Statement) stri
 	return oOK
 }
 
+// identsOracle evaluates one statement of the identifier phase: (1) MySQL dialects: no quoted
+// identifier of the received text that needs its quotes stands in the sent text without them
+// (printedBareCheck; a failure is also noted in the keys of what the round trip reports for
+// the same statement: the AST does not record that a name was quoted, so e.g. `@a` and the
+// variable @a are one tree and the round trip of such a statement fails in ways that are
+// consequences); (2) the round trip; (3) lex: the quoted identifiers of both texts are the same
+// byte strings.
+func identsOracle(col *sqlgen.Collector, c caseT, lex bool) (out string, t sqlparser.Statement, sent string, compared bool) {
+	out, t = parseDML(col, c)
+	if t == nil {
+		return out, nil, "", false
+	}
+	col.Transitions(1)
+	sent, pp := sqlgen.Print(t)
+	if pp == "" && sqlgen.IsMySQL() {
+		c.note = printedBareCheck(col, c, sent)
+	}
+	out = roundTripParsed(col, c, t) // (reports a printer panic)
+	if out == oOK && c.note != "" {
+		return "identifier-printed-bare", t, sent, false
+	}
+	if out == oOK && lex {
+		return identBytesCheck(col, c, sent), t, sent, true
+	}
+	return out, t, sent, false
+}
+
+// printedBareCheck: every quoted identifier of the received text (read by identLex) that MySQL
+// does not read as one name without quotes must not have moved out of its quotes in the sent
+// text: fewer quoted occurrences and more occurrences outside quoted tokens than in the
+// received text. Returns the class of the first failure ("" when there is none).
+func printedBareCheck(col *sqlgen.Collector, c caseT, sent string) string {
+	col.Eval(1)
+	idq, strq := identQuoteSets()
+	recv, got := identLex(c.SQL, idq, strq), identLex(sent, idq, strq)
+	recvBare, sentBare := blankQuoted(c.SQL, idq, strq), blankQuoted(sent, idq, strq)
+	note := ""
+	seen := map[string]bool{}
+	for _, raw := range recv {
+		if seen[raw] || bareable(raw) {
+			continue
+		}
+		seen[raw] = true
+		if count(got, raw) >= count(recv, raw) || strings.Count(sentBare, raw) <= strings.Count(recvBare, raw) {
+			continue
+		}
+		cls := printedBareClass(raw)
+		// one key per character that needs the quotes and its place in the name (leading or not),
+		// whatever the quote style and the identifier position
+		col.Violation("C13/idents/quoted-identifier-printed-bare/"+cls,
+			fmt.Sprintf("[%s] an identifier that needs quotes reaches the database without them: received %q, sent %q; MySQL reads unquoted names over [0-9a-zA-Z$_] and bytes >= 0x80 only, %q is not one name for it (quoted identifiers read: %q vs %q)",
+				c.Dialect, c.SQL, sent, raw, recv, got), c)
+		if note == "" {
+			note = cls
+		}
+	}
+	return note
+}
+
 type identJob struct {
 	sql   string
 	style identStyle
@@ -288,6 +361,10 @@ type identJob struct {
 	tmpl  int
 	pair  bool
 	entry string
+	// alphabet menu (idents_alphabet.go): place of the character in the name, name of the character
+	alpha bool
+	shape string
+	char  string
 }
 
 func identJobs(thorough bool) []identJob {
@@ -313,6 +390,9 @@ func identJobs(thorough bool) []identJob {
 			}
 		}
 	}
+	// the alphabet menu, single identifiers (both tiers): before the pairs, so that a wall-budget
+	// cap can only cut pairs
+	jobs = append(jobs, alphabetJobs(thorough)...)
 	for ti, t := range identPairTemplates() {
 		for _, st := range styles {
 			if stringQuotedStyle(st) {
@@ -329,6 +409,9 @@ func identJobs(thorough bool) []identJob {
 			}
 		}
 	}
+	if thorough {
+		jobs = append(jobs, alphabetThoroughJobs()...)
+	}
 	return jobs
 }
 
@@ -342,23 +425,49 @@ func runIdents(expired func() bool, thorough bool, col *sqlgen.Collector) []stri
 	col.Info("idents_string_quoted_alias_templates", len(identAliasTemplates()))
 	col.Info("idents_pair_templates", len(identPairTemplates()))
 	col.Info("idents_generated", len(jobs))
+	nAlpha := 0
+	for _, j := range jobs {
+		if j.alpha {
+			nAlpha++
+		}
+	}
+	col.Info("idents_alphabet_characters", len(punctAlphabet()))
+	if thorough {
+		col.Info("idents_alphabet_shapes", len(alphaShapes()))
+	} else {
+		col.Info("idents_alphabet_shapes", alphaQuickShapes)
+	}
+	col.Info("idents_alphabet_generated", nAlpha)
 	tl := newTally()
 	res := make([]string, len(jobs))
 	var lexed atomic.Int64
 	done := par.Do(len(jobs), expired, func(i int) {
 		j := jobs[i]
 		c := caseT{Dialect: d, Kind: "idents", SQL: j.sql}
-		out, t := roundTrip(col, c)
+		// (independent reading of the identifier bytes: not for the string-quoted alias forms - in
+		// the MySQL dialects string-quoted tokens are compared by databaseReading, in PostgreSQL
+		// '..' is never an identifier)
+		out, t, sent, compared := identsOracle(col, c, !stringQuotedStyle(j.style))
+		if compared {
+			lexed.Add(1)
+		}
 		if t != nil && out == oOK {
 			observe(col, d, t, out)
-			// independent reading of the identifier bytes (not for the string-quoted alias forms:
-			// in the MySQL dialects string-quoted tokens are compared by databaseReading, in
-			// PostgreSQL '..' is never an identifier)
-			if !stringQuotedStyle(j.style) {
-				lexed.Add(1)
-				out = identBytesCheck(col, c, t)
-			}
-			if out == oOK {
+			if out == oOK && j.alpha {
+				// alphabet menu: the observation is how the name was written in the sent text, per
+				// (identifier position, quote style, place of the character) and per (character, place,
+				// quote style) - not one observation per statement
+				form := "quoted"
+				idq, strq := identQuoteSets()
+				if stringQuotedStyle(j.style) {
+					idq, strq = idq+strq, ""
+				}
+				if l := identLex(sent, idq, strq); count(l, j.raws[0]) == 0 {
+					form = "bare"
+				}
+				col.Distinct(fmt.Sprintf("%s|idents-alphabet|template %d pair=%v|%s|%s|%s", d, j.tmpl, j.pair, j.style.Name, j.shape, form))
+				col.Distinct(fmt.Sprintf("%s|idents-alphabet|%s|%s|%s|%s", d, j.char, j.shape, j.style.Name, form))
+			} else if out == oOK {
 				col.Distinct(fmt.Sprintf("%s|idents|template %d pair=%v|%s|%s", d, j.tmpl, j.pair, j.style.Name, j.entry))
 			}
 		}
@@ -366,6 +475,13 @@ func runIdents(expired func() bool, thorough bool, col *sqlgen.Collector) []stri
 		tl.add(out)
 	})
 	acc := tl.flush(col, "idents")
+	var accAlpha int
+	for i, j := range jobs {
+		if j.alpha && res[i] != oRejected && res[i] != oNonDML && res[i] != "" && res[i] != "parse-panic" {
+			accAlpha++
+		}
+	}
+	col.Info("idents_alphabet_accepted", accAlpha)
 	col.States(int(acc))
 	col.Info("idents_accepted", acc)
 	col.Info("idents_identifier_bytes_compared", lexed.Load())
